@@ -380,6 +380,12 @@ func (l Loader) build(c config.ServerConfig) []tq.SecretProvider {
 		}
 		userConfig := l.configProvider.New(users)
 		handler := handlerType.New(l.ctx, userConfig, provider.Handler.Options)
+		if handler == nil {
+			// e.g. a SPAN handler configured without a destination: a provider built around a
+			// nil handler would panic on the scope's first packet
+			l.Errorf(l.ctx, "handler factory returned no handler in scope [%v]; skipping scope", provider.Name)
+			continue
+		}
 		providerType := l.providerTypes[provider.Type]
 		if providerType == nil {
 			l.Errorf(l.ctx, "no provider assigned to provider type [%v] in scope [%v]; [%v] users not added", provider.Type, provider.Name, len(users))
